@@ -167,6 +167,73 @@ def rule_schur(ck, units):
             ck.ob('schur-operator', f.cls, f.where(bad[0][0]) if bad else f.where(), not bad, '; '.join(msgs[:2]))
 
 
+def rule_deflation(ck, units):
+    """deflation-projection-index: deflated_solver keeps E = Z^T A Z (built with the test vector z_ii as the outer / row index and the
+    trial vector A z_jj as the inner / column index, flat row-major) and inverts it in place.  The coarse correction x += Z d,
+    d = E^-1 (Z^T r), therefore reads d[i] += E[i * nvec + j] * <z_j, r>: the index that multiplies nvec is the index of the OUTPUT
+    coefficient d[.], the other one the index of the inner product.  Swapping them applies E^-T (equal only for symmetric A)."""
+    import c11
+    ck.rule('deflation-projection-index', 'deflated_solver::project: in d[a] += E[p * nvec + q] * f the row index p is the index a of the coefficient that is written and q the index of the '
+                                          'residual functional f = <z_q, r>; the construction loop builds E[k] with the test vector as outer and the operator image as inner index', 2)
+    done = False
+    for u in units.values():
+        for f in u.funcs:
+            if f.cls != 'amgcl::deflated_solver' or f.body is None or done and f.q.split('::')[-1] in ('project',):
+                continue
+            name = f.q.split('::')[-1]
+            if name == 'project':
+                done = True
+                hits = 0
+                for n in f.nodes.values():
+                    if n['k'] not in ('bin', 'opcall') or n.get('op') != '+=' or n.get('x') is None:
+                        continue
+                    x = unwrap(n['x'])
+                    if x is None or x['k'] not in ('idx', 'opcall', 'call'):
+                        continue
+                    out_ix = unwrap(x['x']) if x['k'] == 'idx' else (unwrap(x['a'][-1]) if x.get('a') else None)
+                    es = [m for m in walk(n['y']) if m['k'] in ('idx', 'opcall', 'call') and any(y['k'] == 'mem' and y.get('n') == 'E' for y in walk(m.get('b') or (m.get('obj') or {'k': '?'})))]
+                    if out_ix is None or out_ix['k'] != 'ref' or not es:
+                        continue
+                    e = es[0]
+                    ix = e['x'] if e['k'] == 'idx' else e['a'][-1]
+                    poly = c11._poly(f, ix)
+                    hits += 1
+                    a = out_ix['n']
+                    rows = [m for m in (poly or {}) if len(m) == 2 and a in m]
+                    cols = [m for m in (poly or {}) if len(m) == 1 and m[0] != a]
+                    ok = poly is not None and len(poly) == 2 and len(rows) == 1 and len(cols) == 1
+                    ck.ob('deflation-projection-index', 'amgcl::deflated_solver::project|apply', f.where(n), ok, '' if ok else
+                          '`%s` at %s: the coefficient `%s[%s]` is accumulated from E[%s]; the index of the written coefficient must be the row (multiplied by the row length) - '
+                          'this applies the transposed inverse of Z^T A Z' % (show(n)[:70], f.where(n), show(x.get('b') or x.get('obj'))[:10], a, show(ix)))
+                if not hits:
+                    ck.ob('deflation-projection-index', 'amgcl::deflated_solver::project|apply', f.where(), False, 'no accumulation d[i] += E[...] * f found')
+            elif f.j.get('ctor') or name in ('init', 'deflated_solver'):
+                # construction: E[k] += vec[... ii ...] * AZ[jj] with k advanced in the INNER loop over jj and ii the outer loop
+                for n in f.nodes.values():
+                    if n['k'] not in ('bin', 'opcall') or n.get('op') != '+=' or n.get('x') is None:
+                        continue
+                    x = unwrap(n['x'])
+                    if x is None or x['k'] != 'idx' or not any(y['k'] in ('mem', 'ref') and y.get('n') == 'E' for y in walk(x['b'])):
+                        continue
+                    loops = [a_ for a_ in f.ancestors(n) if a_['k'] == 'for']
+                    if len(loops) < 2:
+                        continue
+                    inner, outer = loops[0], loops[1]
+
+                    def loopvars(L):
+                        return {v['d'] for d in walk(L['init']) if d['k'] == 'decl' for v in d['v']} if L.get('init') is not None else set()
+                    iv, ov = loopvars(inner), loopvars(outer)
+                    y = unwrap(n['y'])
+                    if y is None or y['k'] != 'bin' or y['op'] != '*':
+                        continue
+                    left = {r['d'] for r in walk(y['x']) if r['k'] == 'ref'}
+                    right = {r['d'] for r in walk(y['y']) if r['k'] == 'ref'}
+                    az_right = any(r['k'] == 'ref' and r.get('n') == 'AZ' for r in walk(y['y']))
+                    ok = bool(left & ov) and bool(right & iv) and az_right and not (left & iv - ov)
+                    ck.ob('deflation-projection-index', 'amgcl::deflated_solver|build', f.where(n), ok, '' if ok else
+                          '`%s` at %s: E must be filled with the test vector (left factor) on the outer loop index and A z (right factor) on the inner one' % (show(n)[:70], f.where(n)))
+
+
 def main(tier):
     ck = Check('C18', tier, 'C18 (clauses): two-stage formula of CPR; contract of the matrix-free Schur complement operator.')
     T = os.path.join(ir.VERIF, 'tus')
@@ -177,6 +244,7 @@ def main(tier):
     rule_cpr(ck, units)
     rule_schur(ck, units)
     rule_schur_lm(ck, units)
+    rule_deflation(ck, units)
     # the diagonal blocks that define the CPR pressure weighting are gathered into per-thread scratch that must be rebuilt for every cell (shared with C10)
     import c10
     c10.rule_E(ck, units, only=lambda f: bool(f.cls) and 'cpr' in f.cls, floor=1)
